@@ -166,6 +166,8 @@ def run_pipeline(problem, domain, exact, seed, nref):
     from src.single_layer import SingleLayerOperator
     rng = random.Random(seed)
     exc = ""
+    import multiprocessing
+    multiprocessing.cpu_count = lambda: 3      # several workers run side by side; three pool processes each are enough to exercise the pool path
     try:
         with contextlib.redirect_stdout(io.StringIO()):
             mesh = MeshParametrized(getattr(pz, domain)())
@@ -184,13 +186,13 @@ def run_pipeline(problem, domain, exact, seed, nref):
             elems = list(mesh.leaf_elements)
             emit({"k": "phase", "phase": "configure"})
             emit({"k": "phase", "phase": "assemble"})
-            mat = SL.bilform_matrix(elems, elems, use_mp=False)
+            mat = SL.bilform_matrix(elems, elems, use_mp=True)        # the driver's own call
             rhs = np.zeros(len(elems))
             M0u0 = g = None
             if "u0" in data:
                 initial_mesh = {"UnitSquare": im.UnitSquareBoundaryRefined, "PiSquare": im.PiSquareBoundaryRefined, "LShape": im.LShapeBoundaryRefined}[domain]
                 M0 = InitialOperator(bdr_mesh=mesh, u0=data["u0"], initial_mesh=initial_mesh)
-                rhs = -M0.linform_vector(elems=elems, use_mp=False)
+                rhs = -M0.linform_vector(elems=elems, use_mp=True)
                 M0u0 = data["M0u0"]
             if "g" in data:
                 g = data["g"]
